@@ -43,9 +43,13 @@ KIND_AID = {"cam": 36, "vam": 638, "denm": 37, "other": 99}
 
 
 class World:
-    def __init__(self, rng, n, apps=None, groups=None):
+    def __init__(self, rng, n, apps=None, groups=None, vals=None, ssps=None):
+        """`vals[k][i]` = [start - now, unit, count] and `ssps[k][i]` = PsidSsp entries (sc.psid_ssp_json) of ticket i of
+        station k when a recorded world is rebuilt; otherwise drawn from `rng`: half of the tickets get a validity period
+        over a random IEEE 1609.2 Duration unit placed so that the scenario runs near its start / middle / END
+        (sc.validity_around), and appPermissions entries with and without an ssp component"""
         p = self.pki = sc.PKI()
-        now = sc.its_now_s(T0)
+        now = self.now = sc.its_now_s(T0)
         live = dict(start=now - 1000, duration=("hours", 100))
         self.root = p.root("root", **live)
         # the AA's issuing permissions are split over 1-3 groups in random order (sometimes plus `all`)
@@ -64,12 +68,27 @@ class World:
                 spec = rng.choice([[[36, 37, 99], [638]], [[36], [638, 37]], [[638], [36, 37, 99]], [[36, 99], [37], [638]]])
             else:
                 spec = [rng.choice([[36, 37, 638, 99], [36, 37, 99], [36, 37], [638, 37, 99]])]
-            self.tickets.append([p.issue(self.aa, app=app, **live) for app in spec])
+            row = []
+            for i, app in enumerate(spec):
+                if vals is not None:
+                    off, unit, cnt = vals[k][i]
+                    val = dict(start=now + off, duration=(unit, cnt))
+                elif rng.random() < 0.5:
+                    val = live
+                else:
+                    st_, du = sc.validity_around(rng, now)
+                    val = dict(start=st_, duration=du)
+                entries = sc.psid_ssp_from_json(ssps[k][i]) if ssps is not None else [sc.psid_ssp(x, rng) for x in app]
+                row.append(p.issue(self.aa, app=entries, **val))
+            self.tickets.append(row)
         self.ats = [t[0] for t in self.tickets]
         self.groups = [(g["subjectPermissions"][0], [e["psid"] for e in (g["subjectPermissions"][1] or [])])
                        for g in self.aa.certificate["toBeSigned"]["certIssuePermissions"]]
         self.apps = [[[e["psid"] for e in a.certificate["toBeSigned"]["appPermissions"]] for a in ts] for ts in self.tickets]
         self.owner = {sc.hid8(a.certificate): k for k, ts in enumerate(self.tickets) for a in ts}
+        self.vals = [[[a.certificate["toBeSigned"]["validityPeriod"]["start"] - now,
+                       *a.certificate["toBeSigned"]["validityPeriod"]["duration"]] for a in ts] for ts in self.tickets]
+        self.ssps = [[sc.psid_ssp_json(a.certificate["toBeSigned"]["appPermissions"]) for a in ts] for ts in self.tickets]
         self.A = sc.Abs()
         self.A.register_backend(p.backend)
         for c in [self.root, self.aa] + [a for ts in self.tickets for a in ts]:
@@ -178,6 +197,7 @@ class Sim:
 
     def case(self):
         return {"kind": "scenario", "id": self.sid, "n": self.n, "join": self.join, "pre": self.pre, "apps": self.w.apps, "groups": self.w.groups,
+                "vals": self.w.vals, "ssps": self.w.ssps, "join_all": getattr(self, "join_all", False),
                 "events": list(self.events)}
 
     def emit(self, k, kind, payload):
@@ -361,6 +381,91 @@ def run_scenario(ctx, w, clock, n, n_events, sid, script=None):
     return sim
 
 
+def run_periodic(ctx, w, clock, n, sid, horizon_ms=None, max_events=70):
+    """realistic traffic: every station sends each awareness service it holds a ticket for (CAM, VAM) PERIODICALLY
+    (100 ms .. 1 s, own phase), plus a few DENM / generic one-shots; stations join late.  Dense traffic is where the
+    certificate-request bookkeeping is exercised: several exchanges fit between two timer-driven inclusions, requests
+    name several tickets of a multi-ticket station at once, and the tickets of one station take turns signing."""
+    sim = Sim(ctx, w, clock, n, sid)
+    honest_world(ctx, w, sim)
+    rng = ctx.rng
+    sim.join = [0] + sorted(rng.choice([0, 150, 400, 950, 1300, 2100]) for _ in range(n - 1))
+    horizon = horizon_ms or (sim.join[-1] + rng.choice([1500, 2500, 3500]))
+    ev = []
+    for k in range(n):
+        app = w.app_of(k)
+        for kind in ("cam", "vam"):
+            if KIND_AID[kind] in app:
+                per = rng.choice([100, 100, 200, 300, 500, 1000])
+                t = sim.join[k] + rng.randrange(1, per + 1)
+                while t < horizon:
+                    ev.append((t, k, kind))
+                    t += per
+        for kind in ("denm", "other"):
+            if KIND_AID[kind] in app and rng.random() < 0.5:
+                ev.append((sim.join[k] + rng.randrange(1, max(2, horizon - sim.join[k])), k, kind))
+    ev.sort()
+    if len(ev) > max_events:
+        # keep the whole join phase of the last joiner, thin out nothing in between: cut the tail
+        ev = ev[:max_events]
+    last = None
+    for t, k, kind in ev:
+        if last is not None and t <= last:
+            t = last + 1
+        last = t
+        clock.ms = T0 + 10_000 + t
+        for j in range(n):
+            if not sim.joined(j) and sim.join[j] <= t:
+                sim.do_join(j)
+        payload = bytes(rng.randrange(256) for _ in range(rng.choice([1, 5, 30])))
+        res = sim.emit(k, kind, payload)
+        if res is not None:
+            sim.deliver(k, kind, payload, *res)
+    ctx.cover("periodic_scenarios")
+    return sim
+
+
+def run_validity_edges(ctx, clock, sid, units=None):
+    """every IEEE 1609.2 Duration unit a ticket's validity can be given in x the boundary positions of the TRUE period:
+    a station holding such a ticket signs at generationTime = start, start + 1 ms, end - 1 ms and end (CAM carrying the
+    certificate, then a DENM); a receiver trusting root + AA must accept each of them.  One two-station world per unit."""
+    sims = []
+    rng = ctx.rng
+    for unit in units or ["seconds", "minutes", "hours", "sixtyHours", "years"]:
+        cnt = {"seconds": rng.choice([30, 600, 65535]), "minutes": rng.choice([1, 90]), "hours": rng.choice([1, 100]),
+               "sixtyHours": rng.choice([1, 7]), "years": rng.choice([1, 2, 3])}[unit]
+        now = sc.its_now_s(T0)
+        # the period lies around T0: it started `back` seconds ago
+        total = cnt * sc.UNIT_S[unit]
+        back = rng.choice([0, total // 2, max(0, total - 10)])
+        vals = [[[-back, unit, cnt]], [[-1000, "hours", 100]]]
+        w = World(rng, 2, apps=[[36, 37, 638, 99], [36, 37]], groups=[("explicit", [36, 37, 638, 99])], vals=vals)
+        sim = Sim(ctx, w, clock, 2, f"{sid}:{unit}{cnt}")
+        sim.join, sim.pre, sim.join_all = [0, 0], [[], []], True
+        honest_world(ctx, w, sim)
+        start_s = now - back
+        end_s = start_s + total
+        # generationTime (us) = (clock_ms - ITS_EPOCH * 1000 + 5000) * 1000
+        def clock_for(gt_ms):
+            return gt_ms + sc.ITS_EPOCH * 1000 - 5000
+        first = True
+        for gt_ms, kind in ((start_s * 1000, "cam"), (start_s * 1000 + 1, "denm"), (end_s * 1000 - 1, "cam"), (end_s * 1000, "denm"),
+                            (end_s * 1000, "cam")):
+            clock.ms = clock_for(gt_ms)
+            if first:
+                sim.do_join(0)
+                sim.do_join(1)
+                first = False
+            payload = bytes(rng.randrange(256) for _ in range(5))
+            res = sim.emit(0, kind, payload)
+            if res is not None:
+                sim.deliver(0, kind, payload, *res)
+            ctx.cover(f"validity_edge_{unit}")
+        sims.append(sim)
+    clock.ms = T0
+    return sims
+
+
 def compare(ctx, sims):
     if not ctx.model_ok:
         return
@@ -374,8 +479,25 @@ def compare(ctx, sims):
         pos += len(s.lines)
 
 
-def check_scenarios(ctx, clock, n_scen, tag, extra=()):
+def multi_ticket_world(rng, n):
+    """at least one station signs with separate tickets per service (the dense-traffic scenarios are about them)"""
+    apps = [None] * n
+    for k in rng.sample(range(n), rng.choice([1, 1, n])):
+        apps[k] = rng.choice([[[36, 37, 99], [638]], [[36], [638, 37]], [[638], [36, 37, 99]], [[36, 99], [37], [638]]])
+    for k in range(n):
+        if apps[k] is None:
+            apps[k] = rng.choice([[36, 37, 638, 99], [36, 37, 99], [36, 37], [638, 37, 99]])
+    return World(rng, n, apps=apps)
+
+
+def check_scenarios(ctx, clock, n_scen, tag, extra=(), n_periodic=0, edges=False):
     sims = list(extra)
+    if edges:
+        sims += run_validity_edges(ctx, clock, f"{tag}edge")
+    for i in range(n_periodic):
+        n = ctx.rng.choice([2, 2, 3, 3, 4])
+        w = multi_ticket_world(ctx.rng, n) if ctx.rng.random() < 0.7 else World(ctx.rng, n)
+        sims.append(run_periodic(ctx, w, clock, n, f"{tag}p{i}"))
     for i in range(n_scen):
         n = ctx.rng.choice([2, 2, 3, 3, 4, 5])
         w = World(ctx.rng, n)
@@ -435,7 +557,7 @@ def run(ctx):
                         ctx.violation("receiver trusting only the root never accepts a station whose AA it lacks: " + desc, c, "C05-KF1")
                 elif c.get("kind") == "scenario":
                     recorded.append(run_recorded(ctx, clock, c, f"corpus:{name}"))
-            check_scenarios(ctx, clock, ctx.scale(24, 650), "s", extra=recorded)
+            check_scenarios(ctx, clock, ctx.scale(20, 600), "s", extra=recorded, n_periodic=ctx.scale(5, 120), edges=True)
     finally:
         router_mod.Timer = threading.Timer
 
@@ -446,7 +568,7 @@ def search(ctx):
     router_mod.Timer = sc.NoTimer
     try:
         with rs.VClock(T0) as clock, rs.quiet():
-            check_scenarios(ctx, clock, ctx.scale(72, 450), "x")
+            check_scenarios(ctx, clock, ctx.scale(60, 400), "x", n_periodic=ctx.scale(24, 200), edges=True)
     finally:
         router_mod.Timer = threading.Timer
         ctx.model_ok = ok
@@ -458,10 +580,16 @@ def run_recorded(ctx, clock, case, sid):
     import random
     rng = random.Random(1)
     n = case["n"]
-    w = World(rng, n, case.get("apps"), case.get("groups"))
+    w = World(rng, n, case.get("apps"), case.get("groups"), case.get("vals"), case.get("ssps"))
     sim = Sim(ctx, w, clock, n, sid)
     sim.join, sim.pre = case["join"], case["pre"]
     honest_world(ctx, w, sim)
+    if case.get("join_all"):
+        sim.join_all = True
+        if case["events"]:
+            clock.ms = T0 + case["events"][0][0]
+        for j in range(n):
+            sim.do_join(j)
     for (t, k, kind, plen) in case["events"]:
         clock.ms = T0 + t
         for j in range(n):
